@@ -44,22 +44,29 @@ class PathStates:
         if correlate:
             from .facts import is_const, const_val
             cand = {i.id: i for b in fn.blocks for i in b.insts if i.op == "phi"}
+
+            def flaglike(v, depth=0):
+                """a constant, another flag phi, a test (icmp / i1 value), or a select between flag-like values"""
+                if is_const(v) and const_val(v) is not None:
+                    return True
+                sv = m.strip(v)
+                if sv[0] == "v" and sv[1] in cand:
+                    return True
+                dv = fn.defn(sv)
+                if dv is None or dv.is_param:
+                    return False
+                if dv.op == "icmp" or dv.ty == "i1":
+                    return True         # a boolean: the phi then holds "the truth of that test" (carried as ("$phi", False, id))
+                if dv.op == "select" and depth < 6:
+                    return flaglike(dv.ops[1], depth + 1) and flaglike(dv.ops[2], depth + 1)
+                return False
             changed = True
             while changed:
                 changed = False
                 for pid, ph in list(cand.items()):
-                    for v, _ in ph.incoming:
-                        if is_const(v) and const_val(v) is not None:
-                            continue
-                        sv = m.strip(v)
-                        if sv[0] == "v" and sv[1] in cand:
-                            continue
-                        dv = fn.defn(sv)
-                        if dv is not None and not dv.is_param and (dv.op == "icmp" or dv.ty == "i1"):
-                            continue        # a boolean: the phi then holds "the truth of that test" (carried as ("$phi", False, id))
+                    if not all(flaglike(v) for v, _ in ph.incoming):
                         del cand[pid]
                         changed = True
-                        break
             self.flag_phis = cand
             self._m = m
         self._run()
@@ -79,6 +86,73 @@ class PathStates:
                     labs.add((name, False, iid))
         return frozenset(labs)
 
+    def _flag_eval(self, v, env, benv, depth=0):
+        """value of a flag-like operand under the carried flag assignment: ("c", constant), ("t", test id, negated) when it holds the
+        (possibly negated) truth of an earlier test, or None.  Sound by SSA dominance: an operand used at this point was computed
+        after the last redefinition of every flag phi it depends on."""
+        from .facts import is_const, const_val
+        m = self._m
+        if is_const(v):
+            c = const_val(v)
+            return ("c", c) if c is not None else None
+        sv = m.strip(v)
+        if sv[0] != "v" or depth > 8:
+            return None
+        if sv[1] in env:
+            return ("c", env[sv[1]])
+        if sv[1] in benv:
+            t = benv[sv[1]]
+            return ("t", t[1], True) if isinstance(t, tuple) else ("t", t, False)
+        if sv[1] in self.flag_phis:
+            return None                 # a flag phi whose value is not known on this path
+        d = self.fn.defn(sv)
+        if d is None or d.is_param:
+            return None
+        if d.op == "select":
+            c = self._flag_eval(d.ops[0], env, benv, depth + 1)
+            a = self._flag_eval(d.ops[1], env, benv, depth + 1)
+            b = self._flag_eval(d.ops[2], env, benv, depth + 1)
+            if c is not None and c[0] == "c":
+                return a if c[1] != 0 else b
+            if a is not None and a == b:
+                return a
+            if c is not None and c[0] == "t" and a is not None and b is not None and a[0] == "c" and b[0] == "c" and (a[1] != 0) != (b[1] != 0) \
+                    and {a[1], b[1]} == {0, 1}:
+                return ("t", c[1], c[2] if a[1] != 0 else not c[2])
+            return None
+        if d.op == "icmp":
+            x = self._flag_eval(d.ops[0], env, benv, depth + 1) if self._flag_related(d.ops[0]) else None
+            y = self._flag_eval(d.ops[1], env, benv, depth + 1) if x is not None else None
+            if x is not None and y is not None and x[0] == "c" and y[0] == "c":
+                p, c = x[1], y[1]
+                r = {"eq": p == c, "ne": p != c, "ugt": p > c, "uge": p >= c, "ult": p < c, "ule": p <= c,
+                     "sgt": p > c, "sge": p >= c, "slt": p < c, "sle": p <= c}.get(d.pred)
+                return ("c", int(r)) if r is not None else None
+            if x is not None and y is not None and x[0] == "t" and y == ("c", 0) and d.pred in ("eq", "ne"):
+                return ("t", x[1], x[2] if d.pred == "ne" else not x[2])
+            if self._flag_related(d.ops[0]):
+                return None             # a test of a flag whose value is not known here
+            return ("t", d.id, False)
+        if d.ty == "i1":
+            return ("t", d.id, False)
+        return None
+
+    def _flag_related(self, v, depth=0):
+        m = self._m
+        sv = m.strip(v)
+        if sv[0] != "v":
+            return False
+        if sv[1] in self.flag_phis:
+            return True
+        d = self.fn.defn(sv)
+        if d is None or d.is_param or depth > 6:
+            return False
+        if d.op == "select":
+            return any(self._flag_related(o, depth + 1) for o in d.ops)
+        if d.op == "icmp":
+            return self._flag_related(d.ops[0], depth + 1)
+        return False
+
     def _flag_step(self, st, b, s):
         """state after crossing b->s under the flag-phi assignment, or None if the edge contradicts it"""
         from .facts import is_const, const_val
@@ -89,13 +163,18 @@ class PathStates:
         for f in self.F.edge_facts(b, s):
             if f[0] == "in":
                 continue
-            a = m.strip(f[1])
-            if a[0] == "v" and a[1] in benv and is_const(f[2]) and const_val(f[2]) in (0, 1) and f[0] in ("eq", "ne"):
+            if not (is_const(f[2]) and const_val(f[2]) is not None) or not self._flag_related(f[1]):
+                continue
+            r = self._flag_eval(f[1], env, benv)
+            if r is None:
+                continue
+            c = const_val(f[2])
+            if r[0] == "t" and c in (0, 1) and f[0] in ("eq", "ne"):
                 # the flag holds the truth of an earlier test: branching on the flag establishes that test's facts on this path
-                truth = (f[0] == "ne") == (const_val(f[2]) == 0)
-                extra |= self._labels(self.F.cond_facts(("v", benv[a[1]]), truth))
-            if a[0] == "v" and a[1] in env and is_const(f[2]) and const_val(f[2]) is not None:
-                x, c = env[a[1]], const_val(f[2])
+                truth = ((f[0] == "ne") == (c == 0)) != r[2]
+                extra |= self._labels(self.F.cond_facts(("v", r[1]), truth))
+            if r[0] == "c":
+                x = r[1]
                 ok = {"eq": x == c, "ne": x != c, "ugt": x > c, "uge": x >= c, "ult": x < c, "ule": x <= c,
                       "sgt": x > c, "sge": x >= c, "slt": x < c, "sle": x <= c}.get(f[0], True)
                 if not ok:
@@ -108,18 +187,13 @@ class PathStates:
                 continue
             for v, pb in i.incoming:
                 if pb == b:
-                    if is_const(v) and const_val(v) is not None:
-                        new[i.id] = (True, const_val(v))
+                    r = self._flag_eval(v, env, benv)
+                    if r is None:
+                        new[i.id] = None
+                    elif r[0] == "c":
+                        new[i.id] = (True, r[1])
                     else:
-                        sv = m.strip(v)
-                        if sv[0] == "v" and sv[1] in env:
-                            new[i.id] = (True, env[sv[1]])
-                        elif sv[0] == "v" and sv[1] in benv:
-                            new[i.id] = (False, benv[sv[1]])
-                        elif sv[0] == "v" and sv[1] not in self.flag_phis:
-                            new[i.id] = (False, sv[1])
-                        else:
-                            new[i.id] = None
+                        new[i.id] = (False, ("not", r[1]) if r[2] else r[1])
         if not new and not extra:
             return st
         keep = {x for x in st if not (x[0].startswith("$") and int(x[0][1:]) in new)}
